@@ -305,6 +305,63 @@ func zvMutatedLists(c *structs.ACLCaches, pols []*structs.ACLPolicy) []string {
 	return out
 }
 
+type zpair struct {
+	obj  *structs.ACLPolicy
+	spec *zpol
+}
+
+// zvMutated: which rule lists of the parsed policies held by the shared parsed-policy cache no longer
+// correspond to their rule text. Two observations, results united:
+//  (a) direct: the cached parsed policy (if reachable under the content-hash key) differs from a fresh
+//      parse of the same text (zvMutatedLists);
+//  (b) behavioural, independent of the cache key format: each policy ALONE, under a new policy ID (so
+//      the authorizer cache misses but the parsed-policy cache hits), is compiled through the shared
+//      caches and compared with the reference of that single policy; a differing named decision names
+//      the rule list of the single policy's deciding rule.
+func (m *zmon) mutated(c *structs.ACLCaches, pairs []zpair) []string {
+	found := map[string]bool{}
+	var objs []*structs.ACLPolicy
+	for _, pr := range pairs {
+		objs = append(objs, pr.obj)
+	}
+	for _, l := range zvMutatedLists(c, objs) {
+		found[l] = true
+	}
+	for _, pr := range pairs {
+		clone := *pr.obj
+		clone.ID = zvUUID("probe", pr.obj.ID)
+		a, err := zvCompile(c, []*structs.ACLPolicy{&clone})
+		if err != nil {
+			continue
+		}
+		got, want := zvEvalCompiled(a), m.refVector([]*zpol{pr.spec})
+		ref := zvNewRef([]*zpol{pr.spec})
+		for i := range want {
+			if want[i] == got[i] {
+				continue
+			}
+			q, _ := zvDescribe(i)
+			kind := zvKindOf(q.Fn)
+			if kind == "" {
+				continue
+			}
+			if sel, _ := ref.selectRules(kind, q.Arg); len(sel) > 0 {
+				l := kind
+				if sel[0].Prefix {
+					l += "_prefix"
+				}
+				found[l] = true
+			}
+		}
+	}
+	var out []string
+	for k := range found {
+		out = append(out, k)
+	}
+	sort.Strings(out)
+	return out
+}
+
 // ---------------- sequences through one shared ACLCaches ----------------
 
 type ztoken struct {
@@ -344,7 +401,7 @@ func zvSeqWitness(part, caches string, toks []ztoken) zseqWitness {
 
 // zvJudge classifies a disagreement of token tok (decision vector got) with the reference vector want.
 // fresh: decision vector of the same ordered policy list compiled through brand-new caches and
-// brand-new policy objects. mutated: result of zvMutatedLists on the shared caches (nil if unknown).
+// brand-new policy objects. mutated: result of zmon.mutated on the shared caches (nil if unknown).
 func (m *zmon) judge(w zseqWitness, want, got, fresh []byte, mutated []string) {
 	i := zvPickDiff(want, got)
 	q, def := zvDescribe(i)
@@ -422,7 +479,7 @@ func zvFreshVector(ps []*zpol) []byte {
 func (m *zmon) runSequence(part string, cfgName string, cfg structs.ACLCachesConfig, toks []ztoken) bool {
 	caches := zvCaches(cfg)
 	objs := map[string]*structs.ACLPolicy{} // one shared object per policy, as memdb hands out
-	var all []*structs.ACLPolicy
+	var all []zpair
 	lists := make([][]*structs.ACLPolicy, len(toks))
 	for i, t := range toks {
 		for _, p := range t.Pols {
@@ -430,7 +487,7 @@ func (m *zmon) runSequence(part string, cfgName string, cfg structs.ACLCachesCon
 			if o == nil {
 				o = zvMkPolicy(p, "", 5)
 				objs[p.Label] = o
-				all = append(all, o)
+				all = append(all, zpair{o, p})
 			}
 			lists[i] = append(lists[i], o)
 		}
@@ -462,14 +519,14 @@ func (m *zmon) runSequence(part string, cfgName string, cfg structs.ACLCachesCon
 				if earlier[j] != nil {
 					w.Earlier = string(earlier[j][zvPickDiff(want, got)])
 				}
-				m.judge(w, want, got, zvFreshVector(toks[j].Pols), zvMutatedLists(caches, all))
+				m.judge(w, want, got, zvFreshVector(toks[j].Pols), m.mutated(caches, all))
 				return false
 			}
 			if earlier[j] != nil && zvDiff(earlier[j], got) >= 0 {
 				// cannot happen while both equal the reference; kept for totality
 				w := zvSeqWitness(part, cfgName, toks)
 				w.Step, w.Token = step, j
-				m.judge(w, earlier[j], got, nil, zvMutatedLists(caches, all))
+				m.judge(w, earlier[j], got, nil, m.mutated(caches, all))
 				return false
 			}
 			earlier[j] = got
